@@ -1,11 +1,12 @@
 /-
-  Server: the accept loop of `radicale.server.serve` (one listening socket) and the Content-Length gate of
+  Server: the accept loop of `radicale.server.serve` (any number of listening sockets) and the Content-Length gate of
   the application.
 
   workers  = worker sockets the loop still holds (a connection occupies a slot from `accept` until the loop
              has noticed that its worker thread finished and closed the socket)
   running  = worker threads still processing (running ≤ workers; the others' sockets are readable)
-  backlog  = connections waiting in the listen queue
+  backlog  = connections waiting in the listen queues (total over all listening sockets: one loop iteration
+             accepts at most one connection, from whichever ready listening socket `set.pop()` yields)
 -/
 namespace Server
 
